@@ -40,6 +40,7 @@ namespace vs
         std::atomic<unsigned long> seq{ 0 };
         std::atomic<int> last_point[NTHREADS];
         std::atomic<unsigned long> last_seq[NTHREADS];
+        std::atomic<unsigned long> change_seq[NTHREADS];  // event at which last_point last CHANGED
         std::atomic<unsigned> count[NTHREADS][NPOINTS];
         std::vector<Rule> rules;
         std::atomic<bool> steering{ false };
@@ -53,6 +54,7 @@ namespace vs
             {
                 last_point[t] = 0;
                 last_seq[t] = 0;
+                change_seq[t] = 0;
                 for (int p = 0; p < NPOINTS; ++p)
                     count[t][p] = 0;
             }
@@ -79,6 +81,8 @@ namespace vs
         if (tid >= NTHREADS || point >= NPOINTS)
             return;
         unsigned long s = g_tr.seq.fetch_add(1, std::memory_order_relaxed);
+        if (g_tr.last_point[tid].load(std::memory_order_relaxed) != point)
+            g_tr.change_seq[tid].store(s, std::memory_order_relaxed);
         g_tr.last_point[tid].store(point, std::memory_order_relaxed);
         g_tr.last_seq[tid].store(s, std::memory_order_relaxed);
         unsigned k = g_tr.count[tid][point].fetch_add(1, std::memory_order_relaxed) + 1;
@@ -125,56 +129,86 @@ namespace vs
             long long dt = now_ms() - t0;
             if (dt < 10000)
                 continue;
-            // Provably stuck (lost wake-up), as a predicate over the tracked state, sampled twice
-            // one second apart with identical results:
-            //  * the caller - the only thread that ever notifies - spins in wait();
-            //  * at least one worker passed "after ++m_paused_count" and not yet "after cv.wait",
-            //    and produced no event in between (it sits in the condition-variable wait);
-            //  * EVERY other worker is idle: its last event is a worker-loop iteration (no job
-            //    flag set), its exit, or nothing at all.  A worker that is anywhere else (running
-            //    a job, inside a pause job before the counter, returning from the wait, inside a
-            //    perturbation of the steering plan) may still hold the mutex or make progress:
-            //    then the state is merely slow and nothing is concluded.
-            auto sample = [&](unsigned long* seqs, int& waiting, int& first, bool& others_idle, int& caller_point)
+            // Provably stuck, as a predicate over the tracked state, sampled twice one second apart:
+            //  * the caller stayed in ONE spin loop during the whole window (its last schedule point
+            //    is wait_spin or pause_spin at both samples and did not change in between) and is
+            //    alive (it passed that point again in between, i.e. it re-evaluated the loop
+            //    condition and found it unchanged).  While it spins it neither sets a job flag nor
+            //    notifies; nobody else ever does;
+            //  * every worker is in one of three states during the whole window:
+            //      (a) blocked: last point "after ++m_paused_count" (it sits in the condition-variable
+            //          wait of its pause job) and no event in the window;
+            //      (b) idle: last point is the top of the worker loop, unchanged in the window, and
+            //          it passed that point at least twice more in the window - so it completed an
+            //          iteration that found its own job flag clear while the caller was already
+            //          spinning, and only the caller could set it again;
+            //      (c) gone: exited, or never started.
+            //    A worker anywhere else (running a job, before the counter increment, returning from
+            //    the wait, inside a perturbation of the steering plan) may still make progress:
+            //    then the state is merely slow and nothing is concluded;
+            //  * wait(): the loop condition "some job flag is set" can only be changed by a worker
+            //    clearing its flag after a job; workers of kind (b) have theirs clear, (a) and (c)
+            //    never clear one => it stays as it is.  pause(): the loop condition
+            //    "m_paused_count != m_size" can only be changed by a worker entering or leaving a
+            //    pause job; (a) is blocked until a notification, (b) has no job, (c) is gone => same.
+            struct Snap
             {
-                waiting = 0;
-                first = -1;
-                others_idle = true;
-                caller_point = g_tr.last_point[0].load(std::memory_order_relaxed);
-                for (int t = 1; t < NTHREADS; ++t)
+                int lp[NTHREADS];
+                unsigned long seq[NTHREADS], chg[NTHREADS];
+                unsigned loops[NTHREADS];
+            };
+            auto sample = [&](Snap& q)
+            {
+                for (int t = 0; t < NTHREADS; ++t)
                 {
-                    int lp = g_tr.last_point[t].load(std::memory_order_relaxed);
-                    seqs[t] = g_tr.last_seq[t].load(std::memory_order_relaxed);
-                    if (lp == fsv::pausejob_after_inc)
-                    {
-                        ++waiting;
-                        if (first < 0)
-                            first = t - 1;
-                    }
-                    else if (!(lp == 0 || lp == fsv::worker_loop || lp == fsv::worker_exit))
-                        others_idle = false;
+                    q.lp[t] = g_tr.last_point[t].load(std::memory_order_relaxed);
+                    q.seq[t] = g_tr.last_seq[t].load(std::memory_order_relaxed);
+                    q.chg[t] = g_tr.change_seq[t].load(std::memory_order_relaxed);
+                    q.loops[t] = g_tr.count[t][fsv::worker_loop].load(std::memory_order_relaxed);
                 }
             };
-            unsigned long seq1[NTHREADS], seq2[NTHREADS];
-            int waiting_workers = 0, first_waiting = -1, cp = 0, w2 = 0, f2 = -1, cp2 = 0;
-            bool idle1 = false, idle2 = false;
-            sample(seq1, waiting_workers, first_waiting, idle1, cp);
+            Snap s1, s2;
+            sample(s1);
             std::this_thread::sleep_for(std::chrono::milliseconds(1000));
-            sample(seq2, w2, f2, idle2, cp2);
-            bool workers_silent = true;
+            sample(s2);
+            int cp = s2.lp[0];
+            bool caller_spins = (cp == fsv::wait_spin || cp == fsv::pause_spin) && s1.lp[0] == cp && s1.chg[0] == s2.chg[0] && s2.seq[0] != s1.seq[0];
+            int waiting_workers = 0, first_waiting = -1, idle_workers = 0;
+            bool all_classified = true;
             for (int t = 1; t < NTHREADS; ++t)
-                if (g_tr.last_point[t].load(std::memory_order_relaxed) == fsv::pausejob_after_inc && seq1[t] != seq2[t])
-                    workers_silent = false;
-            bool caller_spins = cp == fsv::wait_spin && cp2 == fsv::wait_spin;
-            bool stuck = caller_spins && waiting_workers > 0 && w2 == waiting_workers && f2 == first_waiting && idle1 && idle2
-                         && g_tr.call_started_ms.load(std::memory_order_relaxed) == t0;
-            char buf[600];
-            if (stuck && workers_silent && caller_spins)
             {
-                int len = snprintf(buf, sizeof buf,
+                int lp = s2.lp[t];
+                if (lp == fsv::pausejob_after_inc && s1.lp[t] == lp && s1.seq[t] == s2.seq[t])
+                {
+                    ++waiting_workers;
+                    if (first_waiting < 0)
+                        first_waiting = t - 1;
+                }
+                else if (lp == fsv::worker_loop && s1.lp[t] == lp && s1.chg[t] == s2.chg[t] && s2.loops[t] - s1.loops[t] >= 2)
+                    ++idle_workers;
+                else if ((lp == 0 || lp == fsv::worker_exit) && s1.lp[t] == lp && s1.seq[t] == s2.seq[t])
+                    ;
+                else
+                    all_classified = false;
+            }
+            // wait(): a set flag must belong to a blocked worker (the lost wake-up) - with none the
+            // state would contradict the tracked events, nothing is concluded then
+            bool stuck = caller_spins && all_classified && g_tr.call_started_ms.load(std::memory_order_relaxed) == t0
+                         && (cp == fsv::wait_spin ? waiting_workers > 0 : idle_workers > 0);
+            char buf[700];
+            if (stuck)
+            {
+                int len;
+                if (cp == fsv::wait_spin)
+                    len = snprintf(buf, sizeof buf,
                                    "\nPOOL-STUCK: caller has been inside one pool call for %lld ms and spins in wait(); worker %d (and %d in total) "
-                                   "is blocked in the condition-variable wait of its pause job with its job flag still set; nobody else notifies -> no progress possible (lost wake-up)\n",
+                                   "is blocked in the condition-variable wait of its pause job with its job flag still set; every other worker is idle; nobody else notifies -> no progress possible (lost wake-up)\n",
                                    dt, first_waiting, waiting_workers);
+                else
+                    len = snprintf(buf, sizeof buf,
+                                   "\nPOOL-STUCK: caller has been inside one pool call for %lld ms and spins in pause() waiting for every worker to be counted as paused; "
+                                   "%d worker(s) sit in the condition-variable wait, %d worker(s) are idle in their loop with no job (they will never be counted), nobody can change the count -> no progress possible\n",
+                                   dt, waiting_workers, idle_workers);
                 ssize_t w = write(2, buf, static_cast<size_t>(len));
                 (void) w;
                 for (int t = 0; t < NTHREADS; ++t)
